@@ -5,7 +5,7 @@
 from string import ascii_letters, digits
 from urllib.parse import uses_netloc
 
-from .prims import (all_chars_in, dec_value, first_not_of, first_of, is_ascii_digits, last_index,
+from .prims import (CUT, all_chars_in, dec_value, first_not_of, first_of, is_ascii_digits, last_index,
                     lower_ascii, nfkc, re_match_, remove_char)
 
 # C07: "after stripping leading C0-control/space characters and removing tab, CR and LF"
@@ -67,20 +67,27 @@ def check_netloc_nfkc(netloc):
 def split_url(url):
     """RFC 3986 Appendix B:  ^(([^:/?#]+):)?(//([^/?#]*))?([^?#]*)(\\?([^#]*))?(#(.*))?
     with the scheme group restricted to RFC 3986 3.1 (ALPHA *( ALPHA / DIGIT / + - . ))
-    and reported lower-cased."""
+    and reported lower-cased.  The CUT markers are the intermediate assertions of the proof
+    (they have no effect when the specification is run)."""
     c = clean(url)
+    CUT("cleaned")
+    # group 2: the scheme
     scheme = ""
     rest = c
     i = first_of(c, ":/?#")
     if 0 < i and i < len(c) and c[i] == ":" and c[0] in ALPHA and all_chars_in(c[1:i], SCHEME_TAIL):
         scheme = lower_ascii(c[:i])
         rest = c[i + 1:]
+    CUT("scheme")
+    # group 4: the authority
     netloc = ""
     if rest[:2] == "//":
         j = first_of(rest, "/?#", 2)
         netloc = rest[2:j]
         rest = rest[j:]
         check_brackets(netloc)
+    CUT("authority")
+    # groups 5, 7, 9: path, query, fragment
     k = first_of(rest, "?#")
     path = rest[:k]
     query = ""
@@ -134,6 +141,12 @@ def split_netloc(netloc):
         if port > 65535:
             raise ValueError("port out of range")
     return (user if user else None, password, host if host else None, port)
+
+
+def unsplit_requires(scheme, netloc, url, query, fragment):
+    """structural invariant of the stored parts (established by every producer except
+    encoded=True garbage): the path of a URL with an authority is empty or starts with '/'"""
+    return not netloc or not url or url[0] == "/"
 
 
 def unsplit_result(scheme, netloc, url, query, fragment):
